@@ -35,6 +35,7 @@ VERS = {"1.0": ssl.TLSVersion.TLSv1, "1.1": ssl.TLSVersion.TLSv1_1, "1.2": ssl.T
 SERVER_ROWS = ["std-ctx", "std-ctx-clientcert", "pyo-ctx", "pyo-ctx-clientcert", "selfsigned-std", "selfsigned-std-cc",
                "selfsigned-pyo", "start-supplied", "start-supplied-rules", "start-auto", "start-auto-rules",
                "start-require-client-cert", "start-mismatched-key", "start-mismatched-key-rules", "start-malformed-key",
+               "start-auto-anyhost", "start-supplied-anyhost", "start-auto-rules-anyhost",
                "std-ctx-weak", "pyo-ctx-weak", "pyo-ctx-clientcert-weak", "start-supplied-weak", "start-supplied-weak-rules"]
 UNUSABLE = ("mismatched", "malformed", "weak")  # rows whose certificate/key pair the TLS library rejects as configured
 GEMINI_RESP = re.compile(rb"(^|\n)[1-6][0-9] [^\r\n]*\r\n")
@@ -106,6 +107,8 @@ async def _build_row(loop, row, counter):
                            require_client_cert="require" in row)
     else:
         cfg = ServerConfig(host="127.0.0.1", port=1965, document_root=root)
+    if "anyhost" in row:
+        cfg.host = "0.0.0.0"  # the IPv4 wildcard address
     if "acl-denied" in row:
         # the harness peer's address is on the deny list
         cfg.enable_access_control = True
@@ -117,8 +120,20 @@ async def _build_row(loop, row, counter):
     tempfile.tempdir = scratch.subdir("c20-tmp")
     try:
         factory, sslctx, task = await stacks.capture_start_server(loop, cfg, enable_rate_limiting=False, **kw)
+        for _ in range(20):
+            await asyncio.sleep(0)  # further listeners start_server may open after the first one
     finally:
         tempfile.tempdir = old
+    # every listener opened by start_server must speak TLS, not only the one the harness connects to
+    from nauyaca.server.tls_protocol import TLSServerProtocol as _T
+
+    for srv_ in loop.captured_servers:
+        if srv_.ssl is None:
+            probe = srv_.factory()
+            if not isinstance(probe, _T) or probe.ssl_context is None:
+                task.cancel()
+                raise _NoTls(f"start_server opened a listener on {srv_.host!r}:{srv_.port} without an ssl context whose protocol is a "
+                             f"{type(probe).__name__}: it answers cleartext requests")
     return factory, sslctx, task
 
 
@@ -142,6 +157,56 @@ def enum_server(tier):
     for row in SERVER_ROWS:
         for vn in VERS:
             yield {"row": row, "v": vn}
+
+
+LEGACY_CONF = """openssl_conf = default_conf
+
+[default_conf]
+ssl_conf = ssl_sect
+
+[ssl_sect]
+system_default = system_default_sect
+
+[system_default_sect]
+MinProtocol = TLSv1
+CipherString = DEFAULT:@SECLEVEL=0
+"""
+LEGACY_ROWS = ["pyo-ctx", "pyo-ctx-clientcert", "selfsigned-pyo", "start-supplied-rules", "start-auto-rules", "start-require-client-cert",
+               "std-ctx", "start-supplied", "start-auto"]
+
+
+def enum_legacy(tier):
+    for row in LEGACY_ROWS:
+        for vn in VERS:
+            yield {"row": row, "v": vn, "legacy_conf": True}
+
+
+def run_server_legacy(case: dict):
+    """The same matrix rows in a child process whose OpenSSL libraries (the system one behind `ssl` and the one bundled
+    with pyOpenSSL) read a legacy-compatibility configuration: MinProtocol TLSv1, security level 0. Whatever is refused
+    there is refused by nauyaca's own settings, not by the build defaults."""
+    import json
+    import subprocess
+    import sys
+
+    from vlib.core import HarnessError, Verdict
+
+    d = scratch.subdir("c20-legacy")
+    conf = os.path.join(d, "openssl-legacy.cnf")
+    with open(conf, "w") as f:
+        f.write(LEGACY_CONF)
+    sub = {k: v for k, v in case.items() if k != "legacy_conf"}
+    code = ("import json, sys\nfrom props import c20\nv = c20.run_server(json.loads(sys.argv[1]))\n"
+            "print('VERDICT ' + json.dumps([v.kind, v.clause, v.detail, v.info], default=str))")
+    r = subprocess.run([sys.executable, "-c", code, json.dumps(sub)], env={**os.environ, "OPENSSL_CONF": conf},
+                       capture_output=True, text=True, timeout=300)
+    line = next((ln for ln in r.stdout.splitlines() if ln.startswith("VERDICT ")), None)
+    if line is None:
+        raise HarnessError(f"legacy-conf child produced no verdict: rc={r.returncode} {r.stderr[-400:]}")
+    kind, clause, detail, info = json.loads(line[len("VERDICT "):])
+    info = dict(info or {})
+    info["openssl_conf"] = "legacy"
+    return Verdict(kind, clause, detail, info)
 
 
 def run_server(case: dict):
@@ -360,6 +425,8 @@ def _live_port(row: str) -> int:
     else:
         cfg = ServerConfig(host="127.0.0.1", port=port, document_root=root)
     kw = {}
+    if "anyhost" in row:
+        cfg.host = "0.0.0.0"  # the IPv4 wildcard address
     if "acl-denied" in row:
         # the harness peer's address is on the deny list
         cfg.enable_access_control = True
@@ -448,6 +515,11 @@ LANES = [
          shards={"quick": 16, "thorough": 16}, nontrivial=lambda c, v: c["v"] in ("1.0", "1.1"),
          labels=lambda c, v: [c["row"], "v" + c["v"], "hs" if v.info.get("handshake") else "refused"], exhaustive=True,
          rule="12 server context construction paths x 4 protocol versions (exhaustive)"),
+    Lane(name="server-matrix-legacy-conf", run_case=run_server_legacy, enumerate=enum_legacy, budget={"quick": 1, "thorough": 1},
+         shards={"quick": 16, "thorough": 16}, nontrivial=lambda c, v: c["v"] in ("1.0", "1.1"),
+         labels=lambda c, v: [c["row"], "v" + c["v"], "hs" if v.info.get("handshake") else "refused"], exhaustive=True,
+         rule="9 construction paths x 4 versions again in a child process under OPENSSL_CONF = legacy compatibility "
+              "(MinProtocol TLSv1, SECLEVEL 0), so that a refusal is the implementation's own floor"),
     Lane(name="client-matrix", run_case=run_client, enumerate=enum_client, budget={"quick": 1, "thorough": 1},
          shards={"quick": 8, "thorough": 8}, nontrivial=lambda c, v: c["v"] in ("1.0", "1.1"),
          labels=lambda c, v: [c["mode"], "v" + c["v"], c["op"]], exhaustive=True,
